@@ -10,10 +10,11 @@ Spec: `Spec/TlbPrim.lean` (TL-B encodings written from the TL-B rules), `Spec/Tl
 All statements quantify over EVERY width, value, byte length class, address form and continuation.
 -/
 import TonVerif.Proofs.Typed
+import TonVerif.Proofs.Snake
 
 namespace TonVerif.Properties.C06
 open TonVerif TonVerif.Model TonVerif.Spec.Tlb TonVerif.Proofs.Builder TonVerif.Proofs.Slice
-  TonVerif.Proofs.Typed
+  TonVerif.Proofs.Typed TonVerif.Proofs.Snake
 variable {R : Type}
 
 /-- bit-exactness: a typed store that returns normally has appended exactly the TL-B encoding of the
@@ -125,6 +126,59 @@ theorem c06_preload_overread_differs :
   constructor
   · rw [loadUint_eq]; simp
   · simp [SOp.preloadUint, SOp.bind, SOp.peekBits, SOp.ofOption, SOp.ba2intU, natOfBits]
+
+/-! ### snake data
+
+Full statement aimed at (DESIGN §6): for every byte string `bs`,
+`load_snake_bytes(store_snake_bytes(bs, empty builder).end_cell()) = bs` whenever the chain depth is
+≤ 1023, and the store raises (depth error from `end_cell`) beyond; the cells form the TL-B
+`SnakeData` chain (`Spec.Tlb.snakeCell`).
+
+Proved (`_partial`): the round trip for byte strings of ANY length, into ANY within-capacity builder
+without references, for every cell constructor `mk` (= `end_cell`) / view (= `begin_parse`) pair with
+`view (mk bits refs) = (bits, refs)`, whenever the store returns normally (in particular every
+`end_cell` of the chain succeeded, i.e. the depth limit was respected), and that the store is never
+refused when `mk` never fails.  Missing: `mk` is not instantiated with the depth-checking constructor
+of C01 (so "raises exactly beyond depth 1023" is not proved; the harness runs the real library up to
+130 kB in the thorough tier), and the produced tree is not related to `Spec.Tlb.snakeCell`.
+Python's recursion limit is outside the model. -/
+
+/-- snake round trip (partial, see above): what `store_snake_bytes(bs)` appended after the content
+of `b` is byte-aligned, and `load_snake_bytes` on it (with the references of the result) returns `bs`,
+for every recursion budget `≥ len + 2`. -/
+theorem c06_snake_partial (mk : Bits → List R → Option R) (view : R → Bits × List R)
+    (hv : ∀ bits refs c, mk bits refs = some c → view c = (bits, refs))
+    (bs : Bytes) (hw : Bytes.WF bs) (b b' : Builder R) (hb : Proofs.Builder.Inv b) (hr : b.refs = [])
+    (h : BOp.storeSnake mk bs b = (b', true)) :
+    ∃ tail, b'.bits = b.bits ++ tail ∧ tail.length % 8 = 0 ∧
+      ∀ fuel, bs.length + 2 ≤ fuel → (SOp.loadSnakeFuel view fuel ⟨tail, b'.refs⟩).2 = some bs :=
+  snake_rt mk view hv (bs.length + 2) bs b b' hw hb.1 hr h
+
+/-- `store_snake_bytes` is never refused on a within-capacity builder with a free reference slot when
+the cell constructor does not fail (chain depth within the limit) — any length. -/
+theorem c06_snake_never_refused (mk : Bits → List R → Option R) (hmk : ∀ bits refs, (mk bits refs).isSome)
+    (bs : Bytes) (b : Builder R) (hb : Proofs.Builder.Inv b) (hr : b.refs.length < 4) :
+    (BOp.storeSnake mk bs b).2 = true :=
+  snake_ok mk hmk bs b hb.1 hr
+
+/-- both together on bare cell trees (`Spec.Tlb.SCell`, constructor total): storing ANY byte string
+into the empty builder succeeds and loading the resulting cell returns it. Non-vacuity of the two
+theorems above as well. -/
+theorem c06_snake_trees (bs : Bytes) (hw : Bytes.WF bs) :
+    ∃ b', BOp.storeSnake (fun bits refs => some (SCell.mk bits refs)) bs (Builder.empty : Builder SCell) = (b', true) ∧
+      ∀ fuel, bs.length + 2 ≤ fuel →
+        (SOp.loadSnakeFuel (fun c => match c with | SCell.mk bits refs => (bits, refs)) fuel ⟨b'.bits, b'.refs⟩).2 = some bs := by
+  have hok := c06_snake_never_refused (R := SCell) (fun bits refs => some (SCell.mk bits refs)) (fun _ _ => rfl) bs
+    Builder.empty inv_empty (by simp [Builder.empty])
+  refine ⟨(BOp.storeSnake (fun bits refs => some (SCell.mk bits refs)) bs (Builder.empty : Builder SCell)).1,
+    Prod.ext rfl hok, ?_⟩
+  obtain ⟨tail, e1, _, e3⟩ := c06_snake_partial (R := SCell) (fun bits refs => some (SCell.mk bits refs))
+    (fun c => match c with | SCell.mk bits refs => (bits, refs))
+    (by intro bits refs c hc; simp only [Option.some.injEq] at hc; subst hc; rfl)
+    bs hw Builder.empty _ inv_empty rfl (Prod.ext rfl hok)
+  have e1' : (BOp.storeSnake (fun bits refs => some (SCell.mk bits refs)) bs (Builder.empty : Builder SCell)).1.bits
+      = tail := by rw [e1]; rfl
+  rw [e1']; exact e3
 
 /-! ### non-vacuity -/
 
